@@ -109,7 +109,12 @@ fn check_densify_edge<S: Dens>(before: &DensState, after: &DensState, streamed: 
             return Some(format!("position {} holds {:#x}, not the hash of a streamed item", k, after.values[k]));
         }
     }
-    // views
+    check_views(after, sk)
+}
+
+/// the three public views of a finished sketch against its internal state
+fn check_views<S: Dens>(after: &DensState, sk: &S) -> Option<String> {
+    let m = after.init.len();
     match guarded_mut(|| sk.views()) {
         Err(p) => return Some(format!("views panic after finishing: {}", p)),
         Ok(v) => {
@@ -143,8 +148,14 @@ impl<S: Dens> DensModel<S> {
             if before != last.obs {
                 return Ok((before, Some("replaying the history does not reproduce the state (non-determinism)".to_string())));
             }
+            // a finished sketch may be read at any time: the getters are polled before the operation ...
+            if before.nb_empty == 0 {
+                let _ = s.views();
+            }
             let r = apply(&mut s, op, &self.witnesses, &self.chunks);
             let after = s.state();
+            // ... and whatever the operation was, the views of a finished sketch must show the state it left
+            let view_broken = if after.nb_empty == 0 && after.init.iter().all(|b| *b) { check_views(&after, &s).map(|w| format!("after {:?} on a sketch whose views had been read: {}", op, w)) } else { None };
             let mut broken = None;
             match op {
                 Op::Sketch(i) => {
@@ -201,7 +212,7 @@ impl<S: Dens> DensModel<S> {
                     }
                 }
             }
-            Ok((after, broken))
+            Ok((after, broken.or(view_broken)))
         });
         match res {
             Ok(Ok((obs, broken))) => St { obs, streamed, hist, broken },
